@@ -99,6 +99,16 @@ Theorem C02_oracle_save_blob_computed : forall digest len zeros skip i zd,
   check_C02 (CSaveBlob digest len zeros None skip (Some i) zd) = true <-> i = digest.
 Proof. exact check_C02_save_blob_computed. Qed.
 
+(* Save cases without a caller-supplied ID are judged by C02_save_blob_names_hash. *)
+Theorem C02_oracle_save_blob_is_names_hash : forall (hash : bytes -> id) b len zeros skip obs zd,
+  check_C02 (CSaveBlob (hash b) len zeros None skip obs zd) = true <->
+  match obs with Some i => SaveOk i | None => SaveErr end = save_blob hash b None skip.
+Proof. exact check_C02_save_blob_is_names_hash. Qed.
+
+Theorem C02_oracle_saved_load : forall digest ret loaded,
+  check_C02 (CSavedLoad digest ret loaded) = true <-> ret = digest /\ loaded = Some digest.
+Proof. exact check_C02_saved_load. Qed.
+
 Theorem C02_model_raw_satisfies_oracle : forall t i script,
   let '(r, nf, _) := load_raw hid (nth_raw script) t i in check_case (CRaw t i script (to_obs r) nf) = 0%nat.
 Proof. exact model_raw_satisfies_oracle. Qed.
@@ -129,5 +139,7 @@ Print Assumptions C02_oracle_saved.
 Print Assumptions C02_oracle_stored_blob.
 Print Assumptions C02_oracle_save_blob.
 Print Assumptions C02_oracle_save_blob_computed.
+Print Assumptions C02_oracle_save_blob_is_names_hash.
+Print Assumptions C02_oracle_saved_load.
 Print Assumptions C02_model_raw_satisfies_oracle.
 Print Assumptions C02_model_blob_satisfies_oracle.
